@@ -622,7 +622,7 @@ class XsdAtomic(XsdSimpleType):
         elif not isinstance(value, self.python_type):
             try:
                 return self.to_python(value)  # type: ignore[arg-type]
-            except (ValueError, DecimalException, TypeError):
+            except (ValueError, ArithmeticError, TypeError):
                 if strict:
                     raise
         elif self.is_qname():
@@ -719,7 +719,7 @@ class XsdAtomicBuiltin(XsdAtomic):
         if validation == 'skip':
             try:
                 return self.to_python(obj)
-            except (ValueError, TypeError, DecimalException):
+            except (ValueError, TypeError, ArithmeticError):
                 return raw_encode_value(obj)
 
         if self.patterns is not None:
@@ -730,7 +730,7 @@ class XsdAtomicBuiltin(XsdAtomic):
 
         try:
             result: DecodedValueType = self.to_python(obj)
-        except (ValueError, DecimalException) as err:
+        except (ValueError, ArithmeticError) as err:  # includes OverflowError and DecimalException
             context.decode_error(validation, self, obj, self.to_python, err)
             return None
         except TypeError:
@@ -808,7 +808,7 @@ class XsdAtomicBuiltin(XsdAtomic):
         if isinstance(obj, str):
             try:
                 value = self.to_python(obj)
-            except (ValueError, TypeError) as err:
+            except (ValueError, TypeError, ArithmeticError) as err:
                 context.encode_error(validation, self, obj, self.to_python, err)
                 return None
 
